@@ -199,7 +199,7 @@ def make_class(spec, drv, tag='', parent=None):
         kw = {'readonly': bool(p.get('readonly', True))}
         if p.get('default') is not None:
             kw['default'] = dtgen.to_internal(di, p['default'])
-        if p.get('constant') is not None:
+        if p.get('constant') is not None and not p.get('constant_cfg'):
             kw['constant'] = dtgen.to_internal(di, p['constant'])
         exp = p.get('export', True)
         if exp is not True:
@@ -320,6 +320,13 @@ def module_cfg(spec, cls):
     if spec.get('omit') is not None:
         cfg['omit_unchanged_within'] = spec['omit']
     for p in spec['params']:
+        # a parameter pinned to a constant by the configuration instead of by the class ('inf': as one writes
+        # "no limit" in a configuration file; a double is described as the largest finite number then)
+        if p.get('constant') is not None and p.get('constant_cfg'):
+            cfg.setdefault(p['name'], {})
+            raw = p['constant_cfg']
+            cfg[p['name']]['constant'] = float(raw) if raw in ('inf', '-inf') else dtgen.to_internal(p['di'], p['constant'])
+    for p in spec['params']:
         # the export property of a parameter given in the configuration (True, False or another wire name)
         if p.get('cfg_export') is not None:
             cfg.setdefault(p['name'], {})
@@ -365,6 +372,14 @@ def gen_module_spec(rng, name, depth=2, nparams=None, full=False, constants='sim
             if r < 0.12 and (constants == 'all' or p['di']['type'] in ('double', 'int', 'bool', 'string', 'enum')):
                 p['constant'] = p['default']
                 p['read'] = p['write'] = False
+                if constants == 'all' and rng.random() < 0.4:
+                    p['constant_cfg'] = 'value'      # given in the configuration, not in the class
+                    if p['di']['type'] == 'double' and 'max' not in p['di'] and rng.random() < 0.5:
+                        p['constant_cfg'] = 'inf'
+                        p['constant'] = p['default'] = 1.7976931348623157e+308
+                    elif p['di']['type'] == 'double' and 'min' not in p['di'] and rng.random() < 0.3:
+                        p['constant_cfg'] = '-inf'
+                        p['constant'] = p['default'] = -1.7976931348623157e+308
                 if constants_read and rng.random() < 0.5:
                     # the class has a hardware read method for a parameter which is pinned to a constant
                     p['read'] = True
